@@ -154,6 +154,7 @@ void res_infra(const char *fmt, ...) {
 	res_printf("E %s\n", tmp);
 	res_finish();
 }
+void res_emit_now(const char *line) { if (write(child_fd, line, strlen(line)) < 0) { } }
 void res_progress(long idx) {
 	char b[32]; int n = snprintf(b, sizeof b, "P %ld\n", idx);
 	if (write(child_fd, b, (size_t) n) < 0) { }
